@@ -55,7 +55,7 @@ def gen(ctx, name, n, dup=0, spur=0, cancel=0, ptimeout=False, barrier=True, pon
     return out
 
 
-def scenario(fam, k, n, steps, mode, rnd, hold=False, ping_ms=None, delays=False):
+def scenario(fam, k, n, steps, mode, rnd, hold=False, ping_ms=None, delays=False, queued=False):
     """wrap one environment script into a harness scenario; request kinds are assigned round-robin from a seeded offset"""
     off = rnd.randrange(len(KINDS))
     stride = rnd.choice([1, 2, 3])
@@ -78,6 +78,23 @@ def scenario(fam, k, n, steps, mode, rnd, hold=False, ping_ms=None, delays=False
             if s["a"] in ("ans", "dup", "spur", "cancel") and rnd.random() < 0.3:
                 s["ms"] = rnd.choice([1, 2, 5])
     p = {"n": n, "kinds": kinds, "mode": mode, "holdPong": hold, "wdMs": WD_MS}
+    if queued:
+        # network burst: every maximal run of broker responses reaches the client back to back
+        p["queued"] = True
+        p["dupN"] = 3
+        out, run_open = [], False
+        for s in steps:
+            br = s["a"] in ("ans", "dup", "spur")
+            if br and not run_open:
+                out.append({"a": "hold"})
+                run_open = True
+            if not br and run_open:
+                out.append({"a": "release"})
+                run_open = False
+            out.append(s)
+        if run_open:
+            out.append({"a": "release"})
+        steps = out
     if ping_ms:
         p["pingMs"] = ping_ms
     return {"id": "C06/%s/%s%d" % (fam, mode[0], k), "kind": "reqreply", "p": p, "steps": steps}
@@ -116,10 +133,13 @@ def run():
     add("perm3", 3, gen(ctx, "perm3", 3), ["sync", "burst"])
     add("dup3", 3, gen(ctx, "dup3", 3, dup=1), ["sync", "burst"])
     add("spur3", 3, gen(ctx, "spur3", 3, spur=1), ["sync", "burst"])
+    # the same scripts with the responses delivered as network bursts (a duplicate right behind its original)
+    add("dup3q", 3, gen(ctx, "dup3", 3, dup=1), ["burst"], queued=True)
     add("cancel3", 3, gen(ctx, "cancel3", 3, cancel=1), ["sync", "burst"])
     all3 = gen(ctx, "all3", 3, dup=1, spur=1, cancel=1)
     add("all3", 3, all3, ["sync"], limit=1500 if q else None)
     add("all3b", 3, all3, ["burst"], limit=500 if q else None)
+    add("all3q", 3, all3, ["burst"], limit=300 if q else None, queued=True)
     # the broker answers while other callers are still starting (no barrier)
     add("nobar3", 3, gen(ctx, "nobar3", 3, cancel=1, barrier=False), ["sync", "burst"])
     # the pong of the keep-alive ping is one of the reordered responses
@@ -138,7 +158,15 @@ def run():
     sims = gen(ctx, "simnb8", 8, dup=1, spur=1, cancel=2, barrier=False, simulate=60 if q else 400)
     add("simnb8", 8, sims, ["burst"], ping_ms=[2, 20000], delays=True)
 
-    trace = ctx.run_scenarios(scs, "c06", par=16)
+    # scenarios that pin the scheduler to one thread for their duration (p.procs) run one at a time
+    solo = [s for s in scs if s["p"].get("procs")]
+    rest = [s for s in scs if not s["p"].get("procs")]
+    trace = ctx.run_scenarios(rest, "c06", par=16)
+    if solo:
+        t2 = ctx.run_scenarios(solo, "c06solo", par=1)
+        with open(trace, "a") as out, open(t2) as f:
+            out.write(f.read())
+        os.remove(t2)
     verdicts, r = ctx.validate(trace, "MonC06", consts={"Callers": "{1}", "Ping": 0, "MaxDup": 1, "MaxSpur": 1, "MaxCancel": 1, "PingTimeout": "FALSE",
                                                          "PingStarts": "TRUE", "GenBarrier": "FALSE", "GenPong": "TRUE", "GenCanon": "FALSE"}, timeout=1500)
     ctx.judge(scs, trace, verdicts)
